@@ -297,3 +297,141 @@ def count_rule(ck, prog):
                   f"Air::{name}: the loop drawing one coefficient per item runs over 0..{count}()", loc=f.loc(hdr[0][0], T),
                   detail=None if good else {"range": f"{lo} .. {hi[:2]}"})
     ck.floor("coefficient-drawing loops", n, 5)
+
+
+# ---- ADIV: the divisor of a boundary assertion -------------------------------------------------------------------------------------------
+
+def assertion_divisor_rule(ck, prog):
+    """ADIV (C02): `ConstraintDivisor::from_assertion(a, n)` builds x^k - g^(a.first_step * k) with k = a.get_num_steps(n) and g the
+    generator of the n-point trace domain — the polynomial whose zeros are exactly the asserted steps.  Every (degree, constant) pair the
+    function places in a numerator is examined on the view with private helpers inlined:
+      * the degree is the result of `get_num_steps(assertion, n)` itself (only converted);
+      * the constant is either g^(k * first_step) — `exp` of `get_root_of_unity(log2 n)` to the product of exactly these two values, in
+        either order — or the field's ONE; ONE is the same value only when first_step = 0, so a ONE pair must sit behind the true edge of
+        a comparison of `first_step` with 0;
+      * no exemption points are added (the second argument of the constructor is an empty vector).
+    A pair of any other recognisable shape (a different exponent: `first_step` alone, `stride * first_step`, the product plus or minus a
+    constant; a degree computed from the count) is a violation: the zero set moves off the asserted steps for every assertion with a
+    non-zero first step, which no honest end-to-end test notices when prover and verifier share the function.  Shapes the rule does not
+    recognise are reported as not decided (a note)."""
+    ck.rule("ADIV", "from_assertion(a, n) = x^k - g^(k * a.first_step), k = a.get_num_steps(n): degree and constant of every numerator term")
+    f0 = prog.fn("winter_air::air::divisor::ConstraintDivisor::from_assertion")
+    ck.saw(f0)
+    f = prog.inl(f0)
+    a_sym, n_sym = ("p", 1), ("p", 2)
+    adt = "winter_air::air::assertions::Assertion"
+    fields = prog.adt_fields(adt)
+    names = [x if isinstance(x, str) else x.get("name") for x in fields]
+    if "first_step" not in names:
+        raise AnchorError("Assertion has no field `first_step`")
+    fs_idx = names.index("first_step")
+    first_step = ("field", fs_idx, a_sym)
+
+    def is_num_steps(e):
+        e = strip_conv(e)
+        return e[0] == "call" and e[1].endswith("::get_num_steps") and tuple(strip_conv(x) for x in e[2]) == (a_sym, n_sym)
+
+    def mentions(e, pred):
+        if pred(e):
+            return True
+        return isinstance(e, tuple) and any(mentions(x, pred) for x in e[1:] if isinstance(x, tuple)) or \
+            (isinstance(e, tuple) and any(isinstance(x, tuple) and any(mentions(y, pred) for y in x if isinstance(y, tuple)) for x in e[1:] if isinstance(x, tuple) and x and isinstance(x[0], tuple)))
+
+    n_pairs = 0
+    for b, i, st in f.assigns():
+        rv = st["rv"]
+        if not (rv["k"] == "agg" and rv.get("agg") == "tuple" and len(rv["ops"]) == 2):
+            continue
+        ty = f.local_ty(st["lhs"]["l"]) if "lhs" in st and isinstance(st["lhs"], dict) and "l" in st["lhs"] else ""
+        if not ty.replace(" ", "").startswith("(usize,"):
+            continue
+        deg, c = expr_at(f, rv["ops"][0]), strip_conv(expr_at(f, rv["ops"][1]))
+        n_pairs += 1
+        inst = "one" if c[0] == "k" else "offset"
+        # degree
+        if is_num_steps(deg):
+            ck.ob("ADIV", f"from_assertion:{inst}:degree", True, "the degree of the numerator term is get_num_steps(assertion, trace_length)", loc=f.loc(b, i))
+        elif mentions(deg, is_num_steps) or mentions(deg, lambda e: e == n_sym) or mentions(deg, lambda e: isinstance(e, tuple) and e[0] == "field"):
+            ck.ob("ADIV", f"from_assertion:{inst}:degree", False, "the degree of the numerator term is get_num_steps(assertion, trace_length)", loc=f.loc(b, i),
+                  detail={"degree expression": repr(deg)[:300]})
+        else:
+            ck.note("ADIV: the degree of a numerator term has an unrecognised shape; not decided")
+        # constant
+        if c[0] == "k":
+            if not str(c[1]).endswith("::ONE"):
+                ck.ob("ADIV", f"from_assertion:{inst}:constant", False, "a constant numerator offset is the field's ONE", loc=f.loc(b, i), detail={"constant": repr(c)})
+                continue
+            ok = _behind_zero_test(f, b, first_step)
+            if ok is None:
+                ck.note("ADIV: the branch that uses ONE as the offset is not behind a recognisable comparison; not decided")
+            else:
+                ck.ob("ADIV", "from_assertion:one:only-when-first-step-is-zero", ok,
+                      "the term x^k - 1 is used only behind the true edge of `first_step == 0` (g^(k*0) = 1)", loc=f.loc(b, i))
+            continue
+        if not (c[0] == "call" and c[1].endswith(("FieldElement::exp", "FieldElement::exp_vartime")) and len(c[2]) == 2):
+            ck.note("ADIV: the offset of a numerator term is not an exponentiation; not decided")
+            continue
+        base, ex = strip_conv(c[2][0]), strip_conv(c[2][1])
+        lg = strip_conv(base[2][0]) if base[0] == "call" and base[1].endswith("get_root_of_unity") and len(base[2]) == 1 else None
+        if lg is None or not (lg[0] == "call" and lg[1].endswith(("ilog2", "trailing_zeros", "log2"))):
+            ck.note("ADIV: the base of the offset is not get_root_of_unity(log2 ..); not decided")
+            continue
+        dom_ok = strip_conv(lg[2][0]) == n_sym
+        ck.ob("ADIV", "from_assertion:offset:domain", dom_ok, "the offset is a power of the generator of the trace domain (get_root_of_unity(log2 trace_length))",
+              loc=f.loc(b, i), detail=None if dom_ok else {"log2 of": repr(strip_conv(lg[2][0]))[:200]})
+        good = ex[0] == "op" and ex[1] == "Mul" and (
+            (is_num_steps(ex[2]) and strip_conv(ex[3]) == first_step) or (is_num_steps(ex[3]) and strip_conv(ex[2]) == first_step))
+        if good:
+            ck.ob("ADIV", "from_assertion:offset:exponent", True, "the exponent of the offset is get_num_steps(..) * first_step", loc=f.loc(b, i))
+        elif mentions(ex, lambda e: e == first_step) or mentions(ex, is_num_steps) or mentions(ex, lambda e: isinstance(e, tuple) and e[0] == "field"):
+            ck.ob("ADIV", "from_assertion:offset:exponent", False, "the exponent of the offset is get_num_steps(..) * first_step", loc=f.loc(b, i),
+                  detail={"exponent expression": repr(ex)[:300]})
+        else:
+            ck.note("ADIV: the exponent of the offset has an unrecognised shape; not decided")
+    # exemptions: every construction of the divisor in this function (constructor call, or its struct literal on the inlined view) has an
+    # empty vector of exemption points
+    cands = [(b, T, t["args"][1]) for b, t in f.calls() if (callee_name(t) or "").endswith("ConstraintDivisor::new") and len(t["args"]) == 2]
+    cands += [(b, i, st["rv"]["ops"][1]) for b, i, st in f.assigns()
+              if st["rv"]["k"] == "agg" and str(st["rv"].get("adt") or "").endswith("ConstraintDivisor") and len(st["rv"]["ops"]) == 2]
+    for b, i, op in cands:
+        ex = strip_conv(expr_at(f, op))
+        if ex[0] == "call" and ex[1].endswith("Vec::new"):
+            ck.ob("ADIV", "from_assertion:no-exemptions", True, "an assertion divisor has no exemption points", loc=f.loc(b, i))
+        else:
+            ck.note("ADIV: the exemptions of an assertion divisor are not a plain Vec::new(); not decided")
+    ck.floor("ADIV: numerator terms examined", n_pairs, 2)
+
+
+def _behind_zero_test(f, blk, first_step):
+    """True: every path from the entry to `blk` passes the edge on which `first_step == 0` holds; False: a comparison of first_step
+    decides the branch but with another constant / polarity; None: not recognisable"""
+    from ..cfg import trace_cond
+    verdict = None
+    for b in range(len(f.blocks)):
+        t = f.term(b)
+        if t["k"] != "switch":
+            continue
+        d = expr_at(f, t["d"])
+        d = strip_conv(d)
+        if not (d[0] == "op" and d[1] in ("Eq", "Ne") and (strip_conv(d[2]) == first_step or strip_conv(d[3]) == first_step)):
+            continue
+        other = strip_conv(d[3]) if strip_conv(d[2]) == first_step else strip_conv(d[2])
+        # successor taken when the comparison is true
+        tgt_true = None
+        for v, tb in t["targets"]:
+            if int(v) == 0:
+                tgt_false = tb
+        tgt_false = next((tb for v, tb in t["targets"] if int(v) == 0), None)
+        tgt_true = t["otherwise"]
+        holds_edge = tgt_true if d[1] == "Eq" else tgt_false     # edge on which first_step == other
+        other_edge = tgt_false if d[1] == "Eq" else tgt_true
+        if holds_edge is None or other_edge is None:
+            continue
+        r_hold = reach(f, [(holds_edge, S)])
+        r_other = reach(f, [(other_edge, S)])
+        in_hold, in_other = (blk, S) in r_hold, (blk, S) in r_other
+        if in_hold and not in_other:
+            verdict = (other == ("k", 0))
+        elif in_other and not in_hold:
+            verdict = False
+    return verdict
